@@ -57,14 +57,20 @@ def ops():
 
     def all_states(m):
         return sorted(v.qname() for v in m._model.states())
+    def adm(m, direct, var):
+        # the dosed variable is not part of administration(): remember it on the object for the comparison with a fresh model
+        m.set_administration('central', amount_var=var, direct=direct)
+        m._c11_amount_var = var
     return [
-        ('adm_direct', lambda m: m.set_administration('central')),
-        ('adm_indirect', lambda m: m.set_administration('central', direct=False)),
+        ('adm_direct', lambda m: adm(m, True, 'drug_amount')),
+        ('adm_indirect', lambda m: adm(m, False, 'drug_amount')),
+        ('adm_direct_other_var', lambda m: adm(m, True, 's_b')),          # a second state of the compartment (rejected with ValueError where it does not exist)
         ('regimen1', lambda m: m.set_dosing_regimen(dose=2.0, start=1.0, duration=0.5, period=3.0, num=4)),
         ('regimen2', lambda m: m.set_dosing_regimen(protocol_obj())),
         ('out_first', lambda m: m.set_outputs([first_out(m)])),
         ('out_states', lambda m: m.set_outputs(all_states(m))),
         ('out_last', lambda m: m.set_outputs([all_states(m)[-1]])),
+        ('out_reversed', lambda m: m.set_outputs(list(reversed(m._output_names)))),          # the same variables in another order
         ('out_inter', lambda m: m.set_outputs([[v.qname() for v in m._model.variables(inter=True)][0]])),
         ('rename_out', lambda m: m.set_output_names({first_out(m): 'OUT_%d' % len(m.outputs()[0])})),
         ('rename_par', lambda m: m.set_parameter_names({m.parameters()[-1]: 'PAR_%d' % len(m.parameters()[-1])})),
@@ -80,10 +86,10 @@ def ops():
 EXPECTED_ERRORS = (ValueError, KeyError)      # documented rejections (e.g. regimen before administration, name clashes)
 
 
-def fresh_with_admin(chi_sym, mk, adm):
+def fresh_with_admin(chi_sym, mk, adm, amount_var='drug_amount'):
     f = mk()
     if adm is not None:
-        f.set_administration(adm['compartment'], direct=adm['direct'])
+        f.set_administration(adm['compartment'], amount_var=amount_var, direct=adm['direct'])
     return f
 
 
@@ -95,11 +101,13 @@ def predicates(chi_sym, mk, m):
     msg = mech.tables_consistent(m)
     if msg:
         return ('tables.consistent', msg)
-    f = fresh_with_admin(chi_sym, mk, m.administration())
+    f = fresh_with_admin(chi_sym, mk, m.administration(), getattr(m, '_c11_amount_var', 'drug_amount'))
     if f._model.code() != m._model.code():
         return ('model.surgery', 'the myokit model differs from the one a fresh model gets for administration %s' % (m.administration(),))
     if bool(m.has_sensitivities()) != (m._simulator.sensitivities is not None):
         return ('flags.consistent', 'has_sensitivities() is %s, the solver holds the request %s' % (m.has_sensitivities(), m._simulator.sensitivities))
+    if m._simulator.sensitivities is not None and list(m._simulator.sensitivities[0]) != list(m._output_names):
+        return ('flags.consistent', 'the solver computes sensitivities of the outputs %s (in this order), the model returns the outputs %s' % (list(m._simulator.sensitivities[0]), list(m._output_names)))
     if m.n_parameters() != len(m.parameters()) or m.n_outputs() != len(m.outputs()) or len(set(m.parameters())) != len(m.parameters()):
         return ('flags.consistent', 'n_parameters %s / parameters %s / outputs %s' % (m.n_parameters(), m.parameters(), m.outputs()))
     return None
